@@ -102,7 +102,13 @@ TRUSTED_BASE = ["harness op pick reads weightedrand.Chooser's unexported fields 
                 "sort.Slice returns some permutation of its input (the theorems hold for every permutation)",
                 "integer overflow of weights / running totals is not modelled (weights below 2^62)",
                 "Model/CodonTranslate.lean and Spec/Ncbi.lean as in C06"]
-ASSUMPTIONS = ["theorem hypothesis `WF t`: the table lists each of the 64 codons exactly once, weights are non-negative, and the usage "
+ASSUMPTIONS = ["JUDGED tables = the property's quantifier: the 25 default tables, tables re-weighted in the harness, and text tables that are a "
+               "re-weighted default written out (the genetic code of one of the 25 tables, non-negative weights, every usage total <= 2^31-1: "
+               "codon counts of a sequence, representable where `int` has 32 bits). Hand-written variations (merged entries = ten synonyms, "
+               "swapped letters, totals of 10^10..10^14 at the float boundary, negative weights, repeated triplets) are DRIFT PROBES: compared "
+               "with the model, never judged, so an implementation that validates and rejects them raises no violation. The theorems cover "
+               "more (every WF table, totals below 2^50)",
+               "theorem hypothesis `WF t`: the table lists each of the 64 codons exactly once, weights are non-negative, and the usage "
                "total of every amino acid is below 2^50 — the range in which the exact share test 10*w > sum has the truth value of the "
                "code's float64 test (first disagreement near 2^51: shareTest 2^51 (10*2^51-1)); tables outside are out of domain for "
                "the judge as well",
